@@ -1,7 +1,7 @@
 """C30  Locale qualifiers round-trip through the configuration encoding (DESIGN §7 C30)."""
 from pyvc.core import And, Eq, Implies, Ite, Not, Or
 from pyvc.strings import mk
-from pyvc.unit import unit
+from pyvc.unit import bare, unit
 from specs import locale as S
 
 AXML = "androguard/core/axml/__init__.py"
@@ -18,7 +18,7 @@ META = {
 
 
 def _cfg(m):
-    return object.__new__(m.ARSCResTableConfig)
+    return bare(m.ARSCResTableConfig)
 
 
 @unit("C30", covers=[(AXML, "ARSCResTableConfig._unpack_language_or_region")], params=[{"base": ord("a")}, {"base": ord("0")}])
